@@ -110,6 +110,7 @@ def corpus(tier, seed):
     for t in (["double"] if tier == "quick" else TYPES):
         for (a, b, c) in ([(2, 3, 4)] if tier == "quick" else [(2, 3, 4), (4, 3, 2), (3, 3, 3), (2, 5, 3)]):
             calls.append("c_es5<%s,%d,%d,%d>(%du);" % (t, a, b, c, sd()))
+            calls.append("c_es4<%s,%d,%d,%d>(%du);" % (t, a, b, c, sd()))
     if tier == "quick":
         # stratified sample: every case template at least twice, every element type
         by = {}
